@@ -35,7 +35,7 @@ func main() {
 		childMain(tier)
 		return
 	}
-	hk.Main(&hk.Component{Name: "rpcclients", Rule: "the three real clients (Streamable with JSON answers, Streamable with POST-SSE answers, legacy SSE, stdio against a re-executed child) receive the same scripted server answer for every result kind of initialize, tools/list, tools/call (text, image, audio, embedded resource, isError, structured, _meta, empty / null / missing content, 70 KiB - 1 MiB texts, numbers at the float64 / int64 edge in every numeric position), prompts/list, prompts/get, resources/list, resources/read, for result null / {} and for JSON-RPC errors of every standard code; the returned values (as Go values and as Go prints their typed fields; nothing is normalised through float64) or error class + code + message must be pairwise equal, and each equals the model's; non-trivial = a value or a JSON-RPC error was returned (ping has no client API)",
+	hk.Main(&hk.Component{Name: "rpcclients", Rule: "the three real clients (Streamable with JSON answers, Streamable with POST-SSE answers, legacy SSE, stdio against a re-executed child) receive the same scripted server answer for every result kind of initialize, tools/list, tools/call (text, image, audio, embedded resource, isError, structured, _meta, empty / null / missing content, 70 KiB - 1 MiB texts, numbers at the float64 / int64 edge in every numeric position, control characters / non-UTF-8 bytes / printf material in every string position and in error messages), prompts/list, prompts/get, resources/list, resources/read, for result null / {} and for JSON-RPC errors of every standard code; the returned values (as Go values and as Go prints their typed fields; nothing is normalised through float64) or error class + code + message must be pairwise equal, and each equals the model's; non-trivial = a value or a JSON-RPC error was returned (ping has no client API)",
 		Run: run})
 }
 
